@@ -25,7 +25,7 @@ TECHNIQUE = ("Lean 4 proof over a model regenerated from the source on every run
              "over API histories (simulation with a specification that uses a fresh transformer per call), induction over block "
              "programs / scope-guard programs with exceptions -- plus a correspondence run: random API histories with aborting "
              "transformations on one real XalanTransformer against a newly created one, hook values, memory probe, ASan pass")
-LEVEL_TEXT = ("Machine-checked (22 theorems, axioms propext/Classical.choice/Quot.sound): for every member state in which a "
+LEVEL_TEXT = ("Machine-checked (25 theorems, axioms propext/Classical.choice/Quot.sound): for every member state in which a "
               "transformation can stop, ~EnsureReset restores every member classified transient (reset_restores_partial; hypothesis "
               "MidOk discharged by reset_after_any_abort from the C01 walker statement WalkerPairing), the next transformation starts "
               "from a fresh transformer's state (start_state_independent_partial), sticky/config/const members are never written "
@@ -33,7 +33,9 @@ LEVEL_TEXT = ("Machine-checked (22 theorems, axioms propext/Classical.choice/Quo
               "(scope_guard_restores, guard_sites_all_guarded, guarded_members_stay_fresh), pooled objects are re-initialised in every data "
               "member and long-lived caches are keyed on every input (pooled_objects_reinitialised, cache_keys_complete), and by induction over all finite API "
               "histories every reply equals that of a specification using a new transformer per call (history_independent_partial); "
-              "parameters are sticky and last-write-wins (params_sticky, params_follow_spec). All tables are regenerated from /repo "
+              "parameters are sticky and last-write-wins (params_sticky, params_follow_spec); every configuration operation has map "
+              "semantics, last write wins per key, and every real setter performs a compatible container operation "
+              "(config_last_write_wins, config_setters_replace). All tables are regenerated from /repo "
               "each run; a dropped reset statement, an unguarded mutation site, a conditionally set collator attribute, a pooled-object member "
               "no re-initialiser assigns, a cache-key member missing from operator=/==, a new unclassified member each break a named theorem. Random histories on the real library validate the abstraction and "
               "supply replays.")
@@ -68,6 +70,9 @@ THEOREMS = [
     "XalanModel.Props.C06.guarded_member_restored",
     "XalanModel.Props.C06.history_independent_partial",
     "XalanModel.Props.C06.params_sticky",
+    "XalanModel.Props.C06.config_last_write_wins",
+    "XalanModel.Props.C06.config_setters_replace",
+    "XalanModel.Props.C06.config_steps_are_map_ops",
     "XalanModel.Props.C06.param_last_write_wins",
     "XalanModel.Props.C06.params_follow_spec",
     "XalanModel.Props.C06.param_overwrite_counterexample",
@@ -162,7 +167,7 @@ class Runner:
             b = None
             if o.startswith("transform") and mout[i].startswith("T "):
                 t = parse_T(mout[i])
-                mode = "c" if o.startswith("transform ") else "s"
+                mode = "c" if o.startswith("transform ") else "l" if o.startswith("transformfl ") else "s"
                 b = len(hlines)
                 # the fresh transformer gets the parameters the SPECIFICATION says are currently set (S), not the model's P
                 hlines.append("fresh %s %s %s %s %s %s" % (mode, t["sheet"], t["src"], t[fresh_from], t["F"], t["C"]))
@@ -302,7 +307,7 @@ def valid(ops):
             sheets.discard(w[1])
         elif w[0] == "dsource":
             sources.discard(w[1])
-        elif w[0] == "transform":
+        elif w[0] in ("transform", "transformfl"):
             if w[1] not in sheets or w[2] not in sources:
                 return False
     return True
@@ -388,7 +393,7 @@ def run(ctx):
         names.append("gen")
     if ctx.thorough:
         # small-scope exhaustive: all histories of <= 4 ops over a compact alphabet, each followed by an observer
-        alpha = ["setexpr p2 'boom'", "setnum p1 5", "clearparams", "install f1", "transformsrc sw_msg d1 1",
+        alpha = ["setexpr p2 'boom'", "setnum p1 5", "clearparams", "install f1 L1", "transformsrc sw_msg d1 1",
                  "transformsrc msg_deep d2 2", "transformsrc xperr_deep d1 3", "transformsrc sw_fn d1 4",
                  "transformsrc obs_strip d3 5", "transformsrc enc_unknown d1 6"]
         for n in range(1, 5):
@@ -423,7 +428,7 @@ def run(ctx):
                 prefix = ops[:ol["at"] + 1]
                 last = prefix[-1]
                 small = [last]
-                if last.startswith("transform "):
+                if last.startswith(("transform ", "transformfl ")):
                     a, b = last.split()[1:3]
                     cs = [o for o in prefix if o.startswith("compile %s " % a) and o.endswith(" ok")][-1:]
                     ps = [o for o in prefix if o.startswith("parse %s " % b) and o.endswith(" ok")][-1:]
